@@ -21,15 +21,17 @@ import (
 	"context"
 	"errors"
 	"fmt"
+	"reflect"
+	"unsafe"
 	"io"
 	"log/slog"
-	"sort"
 	"strings"
 	"sync"
 	"testing"
 	"time"
 
 	clientv3 "go.etcd.io/etcd/client/v3"
+	"go.etcd.io/etcd/client/v3/concurrency"
 	"pgregory.net/rapid"
 	"verif.local/vfkit"
 
@@ -91,6 +93,7 @@ type c19Upload struct {
 	Owned   bool   // handler's lease manager owned the partition when the segment upload started
 	KeyVal  string // etcd lease key value at that moment
 	Request int
+	Foreign string // id of a foreign broker whose lease manager reported Owns() at that moment ("" = none)
 }
 
 type c19World struct {
@@ -109,6 +112,11 @@ type c19World struct {
 	cancelClient context.CancelFunc
 	hookErr  error
 	trace    []string
+
+	overtook  bool                 // a session loss where an Acquire overtook the session monitor
+	unnoticed *concurrency.Session // ended session the manager had not let go of after 5 s
+	prevLease clientv3.LeaseID     // lease of the keys left behind by this broker's previous incarnation
+	foreignAt func(c19Part) bool
 
 	selfLeases map[clientv3.LeaseID]bool // leases seen attached to this broker's keys
 	revoked    map[clientv3.LeaseID]bool // leases the harness revoked on purpose
@@ -171,7 +179,7 @@ func c19PartOfKey(key string) (c19Part, bool) {
 	return c19Part{f[1], p}, true
 }
 
-func (e *c19Env) newWorld(ttl2 bool) (*c19World, error) {
+func (e *c19Env) newWorld(prev []c19Part) (*c19World, error) {
 	ctx, cancel := context.WithTimeout(context.Background(), 30*time.Second)
 	defer cancel()
 	// leases of earlier cases were revoked by their close(); drop whatever else is left
@@ -201,9 +209,7 @@ func (e *c19Env) newWorld(ttl2 bool) (*c19World, error) {
 	}
 	// The handler's lease manager is rebuilt (same type, same broker id) over a client whose KV
 	// tells the harness when an acquire transaction has been answered, so that a lease loss can
-	// be placed between that answer and the recording of ownership. TTL: newHandler's default,
-	// or 4 s in expiry cases so that a revoked session is noticed within about a second
-	// (keep-alive period = TTL/3).
+	// be placed between that answer and the recording of ownership. TTL: newHandler's default.
 	base := store.EtcdClient()
 	gctx, gcancel := context.WithCancel(context.Background())
 	w.cancelClient = gcancel
@@ -211,11 +217,22 @@ func (e *c19Env) newWorld(ttl2 bool) (*c19World, error) {
 	gcli.KV = &c19KV{KV: base.KV, w: w}
 	gcli.Lease = c19NoCloseLease{base.Lease}
 	gcli.Watcher = base.Watcher
-	ttl := 0
-	if ttl2 {
-		ttl = 4
+	w.h.leaseManager = metadata.NewPartitionLeaseManager(gcli, metadata.PartitionLeaseConfig{BrokerID: "1", Logger: c19Quiet})
+	if len(prev) > 0 {
+		// restarted broker: the previous incarnation's lease keys (value = this broker's id) are
+		// still in etcd, attached to a lease that has not run out yet
+		g, err := e.admin.Grant(ctx, 600)
+		if err != nil {
+			return nil, fmt.Errorf("%w: grant: %v", errC19Inconclusive, err)
+		}
+		w.prevLease = g.ID
+		w.revoked[g.ID] = true // it only ever ends by the harness' doing
+		for _, p := range prev {
+			if _, err := e.admin.Put(ctx, metadata.PartitionLeasePrefix()+"/"+p.String(), "1", clientv3.WithLease(g.ID)); err != nil {
+				return nil, fmt.Errorf("%w: previous incarnation's key: %v", errC19Inconclusive, err)
+			}
+		}
 	}
-	w.h.leaseManager = metadata.NewPartitionLeaseManager(gcli, metadata.PartitionLeaseConfig{BrokerID: "1", LeaseTTLSeconds: ttl, Logger: c19Quiet})
 	for i, cli := range e.foreign {
 		w.foreign = append(w.foreign, metadata.NewPartitionLeaseManager(cli, metadata.PartitionLeaseConfig{BrokerID: fmt.Sprintf("%d", i+2), LeaseTTLSeconds: 30, Logger: c19Quiet}))
 	}
@@ -243,7 +260,13 @@ func (e *c19Env) newWorld(ttl2 bool) (*c19World, error) {
 		if err != nil && w.hookErr == nil {
 			w.hookErr = err
 		}
-		w.uploads = append(w.uploads, c19Upload{Part: part, Owned: owned, KeyVal: vals[part.String()], Request: w.request})
+		foreign := ""
+		for i, f := range w.foreign {
+			if f.Owns(part.Topic, part.P) {
+				foreign = fmt.Sprintf("%d", i+2)
+			}
+		}
+		w.uploads = append(w.uploads, c19Upload{Part: part, Owned: owned, KeyVal: vals[part.String()], Request: w.request, Foreign: foreign})
 		w.mu.Unlock()
 		w.fire("upload")
 	}
@@ -295,6 +318,15 @@ func (t *c19Txn) Commit() (*clientv3.TxnResponse, error) {
 	if err == nil && resp.Succeeded && t.hasPut {
 		t.w.fire("txn")
 	}
+	if err == nil && !resp.Succeeded && t.hasPut {
+		// create-if-absent failed: the Else branch read the key. If it holds this broker's id the
+		// manager goes on to re-attach it (second round trip) - trigger point "reacquire-gap"
+		for _, r := range resp.Responses {
+			if rr := r.GetResponseRange(); rr != nil && len(rr.Kvs) > 0 && string(rr.Kvs[0].Value) == "1" {
+				t.w.fire("reacquire-gap")
+			}
+		}
+	}
 	return resp, err
 }
 
@@ -316,49 +348,134 @@ func (w *c19World) close() {
 	_ = w.store.Close()
 }
 
-// expireSelf revokes this broker's etcd lease (what TTL expiry does on the server) and
-// waits until the broker has noticed (property assumption: the unavoidable skew window of
-// a lease scheme is not counted).
-func (w *c19World) expireSelf() (bool, error) {
-	vals, leases, err := w.leaseKeys()
+// c19Internals gives the harness the two things of the handler's lease manager it needs to
+// place a session loss exactly: the manager's mutex and its current etcd session. They are
+// unexported fields of pkg/metadata (this test lives in cmd/broker), read through reflect +
+// unsafe; if the layout changes the harness reports inconclusive.
+type c19Internals struct {
+	mu    *sync.RWMutex
+	sessF reflect.Value
+}
+
+func c19Peek(plm *metadata.PartitionLeaseManager) (in *c19Internals, err error) {
+	defer func() {
+		if r := recover(); r != nil {
+			in, err = nil, fmt.Errorf("%w: cannot reach the lease manager's internals: %v", errC19Inconclusive, r)
+		}
+	}()
+	f := reflect.ValueOf(plm).Elem().FieldByName("lm")
+	f = reflect.NewAt(f.Type(), unsafe.Pointer(f.UnsafeAddr())).Elem()
+	lmv := f.Elem()
+	muF, sessF := lmv.FieldByName("mu"), lmv.FieldByName("session")
+	if muF.Type() != reflect.TypeOf(sync.RWMutex{}) || sessF.Type() != reflect.TypeOf((*concurrency.Session)(nil)) {
+		return nil, fmt.Errorf("%w: lease manager fields have unexpected types", errC19Inconclusive)
+	}
+	return &c19Internals{mu: (*sync.RWMutex)(unsafe.Pointer(muF.UnsafeAddr())), sessF: sessF}, nil
+}
+
+func (in *c19Internals) session() *concurrency.Session {
+	in.mu.RLock()
+	defer in.mu.RUnlock()
+	return reflect.NewAt(in.sessF.Type(), unsafe.Pointer(in.sessF.UnsafeAddr())).Elem().Interface().(*concurrency.Session)
+}
+
+// expireSelf ends this broker's etcd session: the lease is revoked on the server (what TTL
+// expiry does: all its keys vanish) and the client-side keep-alive stream ends
+// (session.Done()). It then waits until the manager has let go of that session (assumption:
+// the unavoidable skew window of a lease scheme is not counted). A manager that has not reacted
+// after 5 s with the harness idle is flagged; nothing is concluded from that alone.
+//
+// With overtake != nil the loss happens in one specific order inside the manager: an Acquire
+// of that (not yet owned) partition reaches the manager's locked session check before the
+// session monitor goroutine gets the mutex. The harness holds a read lock on the manager's
+// mutex, starts the Acquire, waits until it queues for the write lock (TryRLock fails while
+// a writer is pending), ends the session and lets go: writers get the mutex in arrival order.
+func (w *c19World) expireSelf(overtake *c19Part) (bool, error) {
+	in, err := c19Peek(w.h.leaseManager)
 	if err != nil {
 		return false, err
 	}
-	var mine []string
-	for k, v := range vals {
-		if v == "1" {
-			mine = append(mine, k)
-		}
-	}
-	if len(mine) == 0 {
+	sess := in.session()
+	if sess == nil {
 		return false, nil
 	}
-	sort.Strings(mine)
+	_, _, _ = w.leaseKeys() // notes the leases attached to this broker's keys
+	var acqDone chan struct{}
+	queued := false
+	if overtake != nil {
+		in.mu.RLock()
+		acqDone = make(chan struct{})
+		go func() {
+			defer close(acqDone)
+			_ = w.h.leaseManager.Acquire(context.Background(), overtake.Topic, overtake.P)
+		}()
+		deadline := time.Now().Add(30 * time.Second)
+	wait:
+		for time.Now().Before(deadline) {
+			if in.mu.TryRLock() {
+				in.mu.RUnlock()
+			} else {
+				queued = true
+				break
+			}
+			select {
+			case <-acqDone:
+				break wait
+			default:
+			}
+			time.Sleep(20 * time.Microsecond)
+		}
+	}
 	w.mu.Lock()
-	w.revoked[leases[mine[0]]] = true
+	w.revoked[sess.Lease()] = true
 	w.mu.Unlock()
 	ctx, cancel := context.WithTimeout(context.Background(), 30*time.Second)
-	_, err = w.env.admin.Revoke(ctx, leases[mine[0]])
+	_, err = w.env.admin.Revoke(ctx, sess.Lease())
 	cancel()
-	if err != nil {
+	sess.Orphan()
+	if overtake != nil {
+		in.mu.RUnlock()
+		select {
+		case <-acqDone:
+		case <-time.After(60 * time.Second):
+			return false, fmt.Errorf("%w: overtaking acquire did not return", errC19Inconclusive)
+		}
+		if queued {
+			w.overtook = true
+		}
+	}
+	if err != nil && !strings.Contains(err.Error(), "lease not found") {
 		return false, fmt.Errorf("%w: revoke: %v", errC19Inconclusive, err)
 	}
-	deadline := time.Now().Add(60 * time.Second)
-	for {
-		still := false
-		for _, p := range w.universe {
-			if w.h.leaseManager.Owns(p.Topic, p.P) {
-				still = true
-			}
-		}
-		if !still {
-			return true, nil
-		}
+	deadline := time.Now().Add(5 * time.Second)
+	for in.session() == sess {
 		if time.Now().After(deadline) {
-			return false, fmt.Errorf("%w: broker never noticed its revoked session", errC19Inconclusive)
+			w.unnoticed = sess
+			break
 		}
-		time.Sleep(2 * time.Millisecond)
+		time.Sleep(50 * time.Microsecond)
 	}
+	return true, nil
+}
+
+// lateNotice: the manager was flagged as not reacting to its ended session; give it 10 more
+// seconds. true = it has reacted in the meantime (then nothing is concluded from the case).
+func (w *c19World) lateNotice() bool {
+	if w.unnoticed == nil {
+		return false
+	}
+	in, err := c19Peek(w.h.leaseManager)
+	if err != nil {
+		return true
+	}
+	deadline := time.Now().Add(10 * time.Second)
+	for time.Now().Before(deadline) {
+		if in.session() != w.unnoticed {
+			return true
+		}
+		time.Sleep(time.Millisecond)
+	}
+	return false
 }
 
 type c19ReqResult struct {
@@ -434,12 +551,21 @@ func (w *c19World) produce(parts []c19Part, acks int16, inj c19Inject) ([]c19Req
 				}
 				w.mu.Unlock()
 				did = true
-			case inj.Trigger == "txn" && !w.ownsAny():
-				// nothing owned yet: there is no way to see that the manager has noticed the
-				// loss of its session, and the unnoticed window is not counted - no injection
-				did = false
+			case inj.Loss == "prev-lease-expires":
+				// the previous incarnation's lease runs out between the two round trips of the
+				// restarted broker's re-acquire
+				if w.prevLease != 0 {
+					ctx, cancel := context.WithTimeout(context.Background(), 30*time.Second)
+					_, err = w.env.admin.Revoke(ctx, w.prevLease)
+					cancel()
+					if err != nil && strings.Contains(err.Error(), "lease not found") {
+						err = nil
+					}
+					w.prevLease = 0
+					did = err == nil
+				}
 			default:
-				did, err = w.expireSelf()
+				did, err = w.expireSelf(nil)
 			}
 			if err != nil {
 				w.mu.Lock()
@@ -509,8 +635,12 @@ func (w *c19World) produce(parts []c19Part, acks int16, inj c19Inject) ([]c19Req
 		if u.Request != reqNo {
 			continue
 		}
+		if u.Owned && u.KeyVal == "1" && u.Foreign != "" {
+			return out, fmt.Sprintf("request %d: segment for %s was appended and uploaded while broker %s also believes it holds that lease (this broker: Owns=true, etcd key=%q); response code: %d; trace=%v",
+				reqNo, u.Part, u.Foreign, u.KeyVal, codes[u.Part], w.trace), nil
+		}
 		if !u.Owned || u.KeyVal != "1" {
-			if w.spontaneous() {
+			if w.spontaneous() || w.lateNotice() {
 				return out, "", errC19Spontaneous
 			}
 			return out, fmt.Sprintf("request %d: segment for %s was appended and uploaded while this broker did not hold the lease (Owns=%v, etcd key=%q); response code for it: %d; trace=%v",
@@ -534,7 +664,7 @@ func (w *c19World) produce(parts []c19Part, acks int16, inj c19Inject) ([]c19Req
 		if acks != 0 && r.Code == 0 && !(midExpire && midDone) {
 			// (c) success: the lease is this broker's (no expiry was injected during this request)
 			if !w.h.leaseManager.Owns(r.Part.Topic, r.Part.P) || after[r.Part.String()] != "1" {
-				if w.spontaneous() {
+				if w.spontaneous() || w.lateNotice() {
 					return out, "", errC19Spontaneous
 				}
 				return out, fmt.Sprintf("request %d: success for %s but the broker does not hold its lease (Owns=%v, etcd key=%q); trace=%v",
@@ -561,9 +691,15 @@ func TestVF_C19_Produce(t *testing.T) {
 	known := vfkit.Known(c19Finding)
 	rapid.Check(t, func(rt *rapid.T) {
 		st.Eval()
-		// expiry costs real time (the broker notices on its next keep-alive): ration it
-		expiryCase := rapid.IntRange(0, 9).Draw(rt, "expiryCase") == 7
-		w, err := env.newWorld(expiryCase)
+		// 1 case in 3: restarted broker - keys of its previous incarnation are still in etcd
+		known5 := []c19Part{{"t1", 0}, {"t1", 1}, {"t1", 2}, {"t2", 0}, {"t2", 1}}
+		var prev []c19Part
+		if rapid.IntRange(0, 2).Draw(rt, "restarted") == 1 {
+			for _, i := range rapid.SliceOfNDistinct(rapid.IntRange(0, 4), 1, 3, rapid.ID[int]).Draw(rt, "prevKeys") {
+				prev = append(prev, known5[i])
+			}
+		}
+		w, err := env.newWorld(prev)
 		fail := func(v string, err error) {
 			if err != nil {
 				fmt.Println("VF-INCONCLUSIVE:", err)
@@ -583,7 +719,7 @@ func TestVF_C19_Produce(t *testing.T) {
 			var moves []string
 			nmoves := rapid.IntRange(0, 3).Draw(rt, "moves")
 			for m := 0; m < nmoves; m++ {
-				mv := rapid.SampledFrom([]string{"foreign-acquire", "foreign-acquire", "foreign-acquire", "foreign-release", "self-expire"}).Draw(rt, "move")
+				mv := rapid.SampledFrom([]string{"foreign-acquire", "foreign-acquire", "foreign-acquire", "foreign-release", "self-expire", "self-expire"}).Draw(rt, "move")
 				switch mv {
 				case "foreign-acquire":
 					f := rapid.IntRange(0, len(w.foreign)-1).Draw(rt, "foreign")
@@ -596,28 +732,36 @@ func TestVF_C19_Produce(t *testing.T) {
 					w.foreign[f].Release(p.Topic, p.P)
 					moves = append(moves, fmt.Sprintf("b%d.release(%s)", f+2, p))
 				case "self-expire":
-					if !expiryCase {
-						continue
+					// optionally with an Acquire of a not-yet-owned partition overtaking the session monitor
+					var over *c19Part
+					if w.ownsAny() && rapid.Bool().Draw(rt, "overtake") {
+						vals, _, err := w.leaseKeys()
+						fail("", err)
+						var free []c19Part
+						for _, p := range known5 {
+							if vals[p.String()] == "" {
+								free = append(free, p)
+							}
+						}
+						if len(free) > 0 {
+							over = &free[rapid.IntRange(0, len(free)-1).Draw(rt, "overtakePart")]
+						}
 					}
-					did, err := w.expireSelf()
+					did, err := w.expireSelf(over)
 					fail("", err)
 					if did {
-						moves = append(moves, "self-session-expired")
+						if over != nil {
+							moves = append(moves, fmt.Sprintf("self-session-expired(acquire %s overtakes the monitor)", *over))
+							st.Class("self-expire-with-overtaking-acquire")
+						} else {
+							moves = append(moves, "self-session-expired")
+						}
 						st.Class("self-expire-between-requests")
-					}
-				}
-			}
-			if expiryCase && q > 0 && rapid.Bool().Draw(rt, "expireBefore") {
-				did, err := w.expireSelf()
-				fail("", err)
-				if did {
-					moves = append(moves, "self-session-expired")
-					st.Class("self-expire-between-requests")
-					// a foreign broker may grab one of the partitions this broker just lost
-					if rapid.Bool().Draw(rt, "takeover") {
-						p := w.universe[rapid.IntRange(0, 4).Draw(rt, "takeoverPart")]
-						err := w.foreign[0].Acquire(context.Background(), p.Topic, p.P)
-						moves = append(moves, fmt.Sprintf("b2.acquire(%s)=%v", p, err))
+						if rapid.Bool().Draw(rt, "takeover") {
+							p := known5[rapid.IntRange(0, 4).Draw(rt, "takeoverPart")]
+							err := w.foreign[0].Acquire(context.Background(), p.Topic, p.P)
+							moves = append(moves, fmt.Sprintf("b2.acquire(%s)=%v", p, err))
+						}
 					}
 				}
 			}
@@ -633,17 +777,26 @@ func TestVF_C19_Produce(t *testing.T) {
 				}
 			}
 			acks := rapid.SampledFrom([]int16{-1, 1, -1, 1, 0}).Draw(rt, "acks")
-			// lease loss inside the request: by session expiry (expiry cases, costs real time) or by
-			// a shutdown ReleaseAll (only in the last request: the manager is closed afterwards)
+			// lease loss inside the request: by session expiry or by a shutdown ReleaseAll (only in
+			// the last request: the manager is closed afterwards); for a restarted broker also: the
+			// previous incarnation's lease runs out between the two round trips of a re-acquire
 			var inj c19Inject
-			var losses []string
-			if expiryCase {
-				losses = append(losses, "expire")
-			}
+			losses := []string{"expire", "expire"}
 			if q == nreq-1 {
 				losses = append(losses, "releaseAll")
 			}
-			if len(losses) > 0 && rapid.IntRange(0, 2).Draw(rt, "injectLoss") > 0 {
+			touchesPrev := false
+			for _, p := range parts {
+				for _, pp := range prev {
+					if p == pp && w.prevLease != 0 && !w.h.leaseManager.Owns(p.Topic, p.P) {
+						touchesPrev = true
+					}
+				}
+			}
+			switch {
+			case touchesPrev && rapid.IntRange(0, 3).Draw(rt, "reacquireGap") > 0:
+				inj = c19Inject{Trigger: "reacquire-gap", Loss: "prev-lease-expires", ForeignTakes: rapid.IntRange(0, 3).Draw(rt, "foreignTakes") > 0}
+			case rapid.IntRange(0, 2).Draw(rt, "injectLoss") == 1:
 				inj.Loss = rapid.SampledFrom(losses).Draw(rt, "loss")
 				inj.Trigger = rapid.SampledFrom([]string{"upload", "list", "list", "txn", "txn"}).Draw(rt, "trigger")
 				inj.ForeignTakes = rapid.Bool().Draw(rt, "foreignTakes")
@@ -706,7 +859,7 @@ func TestVF_C19_Witness(t *testing.T) {
 	defer st.Flush()
 	env := c19NewEnv(t)
 	st.Eval()
-	w, err := env.newWorld(true)
+	w, err := env.newWorld(nil)
 	if err != nil {
 		fmt.Println("VF-INCONCLUSIVE:", err)
 		t.Fatalf("inconclusive: %v", err)
